@@ -59,11 +59,14 @@ class Paths:
     """Reachability on the CFG of `fn` (a FuncInfo, normally a normalised view) under assumptions.
 
     `texts`: {expression text (after alias expansion): value} e.g. {"self.geoh5.mode": "r"}
-    `names`: {parameter name: value} — ignored (unknown) when the name is re-bound in the function."""
+    `names`: {parameter name: value} — ignored (unknown) when the name is re-bound in the function.
+    `hook`:  callable(expression, paths) -> value | None, asked first for calls / comparisons (facts such as
+             "isinstance(<the handle>, <h5py.File>) holds")."""
 
-    def __init__(self, fn, texts=None, names=None, project=None):
+    def __init__(self, fn, texts=None, names=None, project=None, hook=None):
         self.fn = fn
         self.p = project
+        self.hook = hook
         self.node = fn.node
         self.g = CFG(fn.node)
         self.texts = dict(texts or {})
@@ -121,6 +124,12 @@ class Paths:
             if t is False:
                 return V(e.orelse)
             return UNKNOWN
+        if self.hook is not None and isinstance(e, (ast.Compare, ast.Call)):
+            h = self.hook(e, self)
+            if h is not None:
+                return h
+        if isinstance(e, ast.Call) and isinstance(e.func, ast.Name) and e.func.id == "bool" and "bool" not in self.bound and len(e.args) == 1 and not e.keywords:
+            return _from_truth(truth(V(e.args[0])))
         if isinstance(e, ast.Compare):
             left = V(e.left)
             res = True
@@ -217,10 +226,12 @@ class Paths:
         return None
 
     # -------------------------------------------------------------------------------------------- exploration
-    def reachable(self) -> set:
-        """CFG nodes reachable from the entry along edges that do not contradict the assumptions."""
-        if self._reach is not None:
+    def reachable(self, avoid=None) -> set:
+        """CFG nodes reachable from the entry along edges that do not contradict the assumptions.
+        `avoid`: ids of nodes that do not complete normally under the assumptions (only their 'exc' edges are followed)."""
+        if self._reach is not None and not avoid:
             return self._reach
+        avoid = set(avoid or ())
         g = self.g
         seen_states = set()
         seen_nodes = set()
@@ -235,8 +246,7 @@ class Paths:
             seen_nodes.add(n)
             steps += 1
             if steps > 20000:  # give up on precision, never on soundness
-                self._reach = g.reachable()
-                return self._reach
+                return g.reachable()
             env = dict(envt)
             succ = n.succ
             if n.kind == "test" and n.ast is not None:
@@ -249,12 +259,15 @@ class Paths:
                 t = truth(self.value(n.ast, env))
                 if t is True:
                     succ = [(m, l) for m, l in succ if l != "false"]
+            if n.id in avoid:
+                succ = [(m, l) for m, l in succ if l == "exc"]
             out_env = self._transfer(n, env)
             oe = tuple(sorted(out_env.items(), key=lambda kv: kv[0]))
             for m, lab in succ:
                 # an exception raised while the statement runs: its own binding did not happen
                 stack.append((m, envt if lab == "exc" else oe))
-        self._reach = seen_nodes
+        if not avoid:
+            self._reach = seen_nodes
         return seen_nodes
 
     def _transfer(self, n, env):
